@@ -10,7 +10,7 @@ What is decided (every clause is a necessary condition of the round trip; none o
   W5  the wire pixel type of the writer's row buffer equals that of the reader's row buffer
 Not decided: pixel equality itself for PNG/TIFF/JPEG (done by libpng/libtiff/libjpeg, outside the source analysed).
 """
-import os, re, json
+import os, re, json, itertools
 from . import common as C
 from .ast import rules as R
 from .ast.absexec import Exec, Stop
@@ -323,8 +323,12 @@ class IoExec(Exec):
         return NotImplemented
 
 
+DEVICES = ["file_stream_device", "file_stream_device"]      # [writer side, reader side]; the thorough tier also runs ostream -> istream
+
+
 def pick(fns, suffix, fmt, must=()):
-    out = [f for f in fns if f["name"].endswith(suffix) and fmt_of(f) == fmt and "file_stream_device" in f["full"] and all(m in f["full"] for m in must)]
+    dev = DEVICES[0] if suffix.startswith("writer") else DEVICES[1]
+    out = [f for f in fns if f["name"].endswith(suffix) and fmt_of(f) == fmt and (dev + "<") in f["full"] and all(m in f["full"] for m in must)]
     return out
 
 
@@ -494,8 +498,10 @@ def streams(rep, fns):
     rep.rule("W3d position of view row y in the file is the same polynomial in (W,H,y) for writer and reader (data offset, padding, row order)")
     rep.rule("W5 the row buffers have the same wire pixel type on both sides (channel order / bit layout)")
     rep.rule("W4 byte functors applied writer-side after the pixel copy composed with those applied reader-side before the pixel copy are the identity bit map")
-    for fmt, pix in CASES:
-        case = "%s:%s" % (fmt, pix)
+    pairs = [("file_stream_device", "file_stream_device")] + ([("ostream_device", "istream_device")] if rep.tier == "thorough" else [])
+    for (wdev, rdev), (fmt, pix) in itertools.product(pairs, CASES):
+        DEVICES[0], DEVICES[1] = wdev, rdev
+        case = "%s:%s%s" % (fmt, pix, "" if wdev == "file_stream_device" else ":ostream->istream")
         r = run_case(fns, fmt, pix)
         wx, rx = r["wx"], r["rx"]
         where_w = W + "extension/io/%s/detail/write.hpp" % fmt
@@ -599,6 +605,7 @@ def streams(rep, fns):
         wchain = [e for e in wev if e["kind"] == "bytefn" and e["loop"] == wrow["loop"]]
         rchain = [e for e in rev if e["kind"] == "bytefn" and e["loop"] == rrow["loop"]]
         CHAINS[case] = ([(e["cls"], e["line"]) for e in wchain], [(e["cls"], e["line"]) for e in rchain], where_w, where_r)
+    DEVICES[0] = DEVICES[1] = "file_stream_device"
     for k in ("W3a", "W3b", "W3c", "W3d", "W5"):
         rep.floor("obligations:" + k, 5)
 
